@@ -49,3 +49,47 @@ PROPS["C01"] = dict(
     ],
     note="restart and genesis export/import are identities on the modelled state (C10, C08) and are not separate operations in these histories",
 )
+
+DID_TRUSTED = [
+    "hand-written Lean model Panacea/Model/Did.lean of x/did (documents, validity, base58, DataWithSeq framing, VerifyDIDOwnership, msg server, query), tied by the did stream: ValidateBasic + real msg server + Query/DID on a real app with real secp256k1 keys, every message round-tripped through protobuf",
+    "signature verification is a parameter (Crypto.verify); the driver instantiates it with the table of signatures the harness produced with real keys; replay theorems are stated as reductions and, separately, under SigBinds",
+    "protobuf encoding of a DIDDocument is not modelled: messages carry the observed doc.Marshal() bytes; C11.proof_bound_to_did takes injectivity of that encoding as a hypothesis",
+]
+DID_ASSUME = [
+    "WF s0 (entries carry a document pointer, uint64 sequence, active documents are self-describing): proved for the empty registry and preserved by every message",
+    "no uint64 overflow of a DID sequence during the history (B + |history| < 2^64)",
+]
+DID_STREAM = [dict(name="did", quick=150, thorough=3000, thorough_seeds=3)]
+
+PROPS["C03"] = dict(
+    module="Panacea.Properties.C03",
+    obligations=["Panacea.C03.update_requires_current_auth_proof", "Panacea.C03.deactivate_requires_current_auth_proof",
+                 "Panacea.C03.create_requires_self_auth_proof", "Panacea.C03.proof_key_is_listed_under_authentication",
+                 "Panacea.C03.not_under_authentication_rejected", "Panacea.C03.from_address_irrelevant",
+                 "Panacea.C03.rejected_is_noop", "Panacea.C03.other_dids_untouched"],
+    streams=DID_STREAM, trusted=DID_TRUSTED, assumptions=DID_ASSUME,
+)
+PROPS["C04"] = dict(
+    module="Panacea.Properties.C04",
+    obligations=["Panacea.C04.wf_empty", "Panacea.C04.wf_reachable", "Panacea.C04.seq_create_zero", "Panacea.C04.seq_advances",
+                 "Panacea.C04.seq_changes_only_by_acceptance", "Panacea.C04.seq_monotone", "Panacea.C04.read_seq_is_next",
+                 "Panacea.C04.update_replay_reduction", "Panacea.C04.update_replay_rejected",
+                 "Panacea.C04.deactivate_replay_rejected", "Panacea.C04.create_replay_rejected",
+                 "Panacea.Did.signBytes_injective"],
+    streams=DID_STREAM, trusted=DID_TRUSTED,
+    assumptions=DID_ASSUME + ["SigBinds (a signature verifies for at most one message) for update_replay_rejected only; the reduction form has no such hypothesis"],
+)
+PROPS["C05"] = dict(
+    module="Panacea.Properties.C05",
+    obligations=["Panacea.C05.create_existing_fails_noop", "Panacea.C05.deactivate_makes_tombstone",
+                 "Panacea.C05.tombstone_forever", "Panacea.C05.update_never_deactivates"],
+    streams=DID_STREAM, trusted=DID_TRUSTED, assumptions=DID_ASSUME,
+    note="export/import and restart preservation of tombstones: C08 / C10",
+)
+PROPS["C11"] = dict(
+    module="Panacea.Properties.C11",
+    obligations=["Panacea.C11.active_doc_id_eq_key", "Panacea.C11.write_is_about_its_own_did",
+                 "Panacea.C11.proof_bound_to_did", "Panacea.C11.deactivation_proof_bound_to_did"],
+    streams=DID_STREAM, trusted=DID_TRUSTED, assumptions=DID_ASSUME,
+    note="theorems are about the code after fix 5604f2f8 (F6); monitor mon.c11.ids evaluates the property on the implementation's store after every history",
+)
